@@ -38,7 +38,9 @@ Params(i, S) == LET s == AscSeq({x \in S : DfltOf(i, x) = "req"}) \o AscSeq({x \
                 IN [k \in DOMAIN s |-> [n |-> Names[s[k]], t |-> TypeOf(i, s[k]), d |-> DfltOf(i, s[k])]]
 NameSeq(S)   == LET s == AscSeq(S) IN [k \in DOMAIN s |-> Names[s[k]]]
 
-Fw(k, b, hard, q, qop, chain) == [k |-> k, b |-> b, hard |-> NameSeq(hard), q |-> NameSeq(q), qop |-> qop, chain |-> chain]
+FwX(k, b, hard, q, qop, qpos, av, chain) ==
+  [k |-> k, b |-> b, hard |-> NameSeq(hard), pos |-> IF qpos = "arg" THEN 1 ELSE 0, q |-> NameSeq(q), qop |-> qop, qpos |-> qpos, av |-> av, chain |-> chain]
+Fw(k, b, hard, q, qop, chain) == FwX(k, b, hard, q, qop, "stmt", "-", chain)
 Sig(i, own, kw, fw) == [has |-> TRUE, ps |-> Params(i, own), kw |-> kw, fw |-> fw]
 
 (* ---- helper chains that a class can call (a fixed menu; the chains that are components themselves are enumerated) *)
@@ -56,22 +58,32 @@ ChainMenu(i) == <<
 ChainWeight == <<1, 1, 2, 2, 3, 1, 1>>
 NewChain == 7      \* only offered to classes that have an earlier class to construct
 
-(* ---- class descriptors: [kind, own, hard, q, qop, b, ch, mhas, mown]                                             *)
-Kinds == <<"noinit", "named", "ignore", "super0", "superB", "func", "meth", "new">>
+(* ---- class descriptors: [kind, own, hard, q, qop, qpos, b, ch, mhas, mown]                                       *)
+Kinds == <<"noinit", "named", "ignore", "super0", "superB", "func", "meth", "new", "attr">>
 KindIx(k) == PosIn(Kinds, k)
-Desc(kind, own, hard, q, qop, b, ch, mhas, mown) ==
-  [kind |-> kind, own |-> own, hard |-> hard, q |-> q, qop |-> qop, b |-> b, ch |-> ch, mhas |-> mhas, mown |-> mown]
+QPos == <<"stmt", "arg", "kw", "alias">>
+AVs  == <<"meth", "prop", "upd", "dict">>      \* how the stored **kwargs is kept and used ("attr")
+DescQ(kind, own, hard, q, qop, qpos, b, ch, mhas, mown) ==
+  [kind |-> kind, own |-> own, hard |-> hard, q |-> q, qop |-> qop, qpos |-> qpos, b |-> b, ch |-> ch, mhas |-> mhas, mown |-> mown]
+Desc(kind, own, hard, q, qop, b, ch, mhas, mown) == DescQ(kind, own, hard, q, qop, "stmt", b, ch, mhas, mown)
+\* where the pop of a forwarding def may be written: as a statement, nested as the positional argument of the call, or
+\* nested as the value of its (first) hard-coded keyword
+Places(hard, q, nest) == IF q = {} \/ ~nest THEN {"stmt"} ELSE {"stmt", "arg"} \cup (IF hard # {} THEN {"kw"} ELSE {})
 Weight(d) == Cardinality(d.own) + Cardinality(d.hard) + Cardinality(d.q) + (IF d.ch > 0 THEN ChainWeight[d.ch] ELSE 0)
              + (IF d.mhas THEN 1 + Cardinality(d.mown) ELSE 0)
 Code(d) == Mask(d.own) + 16 * Mask(d.hard) + 256 * Mask(d.q) + 2048 * KindIx(d.kind) + 32768 * d.b + 262144 * d.ch
            + (IF d.qop = "get" THEN 4194304 ELSE 0) + 8388608 * (IF d.mhas THEN 16 + Mask(d.mown) ELSE 0)
+           + 536870912 * (PosIn(QPos, d.qpos) - 1)
 
 Build(i, bases, d) ==
   [bases |-> bases,
    init  |-> CASE d.kind = "noinit" -> NoSig
                [] d.kind = "named"  -> Sig(i, d.own, FALSE, NoFwd)
-               [] d.kind = "func"   -> Sig(i, d.own, TRUE, Fw("func", 0, d.hard, d.q, d.qop, ChainMenu(i)[d.ch]))
-               [] OTHER             -> Sig(i, d.own, TRUE, Fw(d.kind, d.b, d.hard, d.q, d.qop, << >>)),
+               [] d.kind = "func"   -> Sig(i, d.own, TRUE, FwX("func", 0, d.hard, d.q, d.qop, d.qpos, "-", ChainMenu(i)[d.ch]))
+               \* the four ways of keeping / using the stored dict rotate over the descriptors
+               [] d.kind = "attr"   -> Sig(i, d.own, TRUE, FwX("attr", 0, d.hard, d.q, d.qop, d.qpos,
+                                                               AVs[((i + d.ch + Cardinality(d.hard) + Cardinality(d.own)) % 4) + 1], ChainMenu(i)[d.ch]))
+               [] OTHER             -> Sig(i, d.own, TRUE, FwX(d.kind, d.b, d.hard, d.q, d.qop, d.qpos, "-", << >>)),
    m     |-> IF d.mhas THEN Sig(i + 1, d.mown, FALSE, NoFwd) ELSE NoSig]
 
 \* every descriptor of the menu (a constant: TLC evaluates it once), indexed by weight so that a state only looks at
@@ -83,12 +95,14 @@ AllDescs ==
       \cup {Desc("named", own, {}, {}, "pop", 0, 0, FALSE, {}) : own \in SmallSets(MaxOwn)}
       \cup {Desc("ignore", own, {}, q, qop, 0, 0, FALSE, {}) :
               own \in SmallSets(MaxOwn), q \in SmallSets(MaxPop), qop \in {"pop", "get"}}
-      \cup {Desc(k, own, hard, q, "pop", 0, 0, FALSE, {}) :
+      \cup {DescQ("ignore", own, {}, q, qop, "alias", 0, 0, FALSE, {}) :                   \* kwargs.get(n1, kwargs.get(n2, dflt))
+              own \in SmallSets(MaxOwn), q \in {x \in SmallSets(IF MaxPop > 0 THEN 2 ELSE 0) : Cardinality(x) = 2}, qop \in {"pop", "get"}}
+      \cup UNION {{DescQ(k, own, hard, q, "pop", qp, 0, 0, FALSE, {}) : qp \in Places(hard, q, TRUE)} :
               k \in {"super0", "meth"}, own \in SmallSets(MaxOwn), hard \in SmallSets(MaxHard), q \in one}
-      \cup {Desc(k, own, hard, q, "pop", b, 0, FALSE, {}) :
+      \cup UNION {{DescQ(k, own, hard, q, "pop", qp, b, 0, FALSE, {}) : qp \in Places(hard, q, TRUE)} :
               k \in {"superB", "new"}, own \in SmallSets(MaxOwn), hard \in SmallSets(MaxHard), q \in one, b \in 1..MaxClasses}
-      \cup {Desc("func", own, hard, q, "pop", 0, ch, FALSE, {}) :
-              own \in SmallSets(MaxOwn), hard \in SmallSets(MaxHard), q \in one, ch \in DOMAIN ChainWeight}
+      \cup UNION {{DescQ(k, own, hard, q, "pop", qp, 0, ch, FALSE, {}) : qp \in Places(hard, q, k = "func")} :
+              k \in {"func", "attr"}, own \in SmallSets(MaxOwn), hard \in SmallSets(MaxHard), q \in one, ch \in DOMAIN ChainWeight}
       sane == {d \in core : ~(d.qop = "get" /\ d.q = {})}
   IN sane \cup {[d EXCEPT !.mhas = TRUE, !.mown = mo] : d \in sane, mo \in SmallSets(1)}
 MaxWeight == B1 + B2 + B3 + B4 + B5
@@ -99,7 +113,7 @@ Descs(i, anc, methAbove, left, shp) ==
   {d \in UNION {DescsByWeight[wt] : wt \in 0..left} :
       /\ d.kind = "superB" => d.b \in anc
       /\ d.kind = "new" => d.b < i
-      /\ MroOnly => d.kind \notin {"func", "meth", "new"}
+      /\ MroOnly => d.kind \notin {"func", "meth", "new", "attr"}
       /\ d.ch = NewChain => i > 1
       /\ d.mhas => (d.kind = "meth" \/ methAbove)
       /\ d.q # {} => Len(shp) <= PopClasses}
